@@ -31,7 +31,7 @@ def check(chk):
     f = repo.func(DL, "DelayManager.add")
     chk.analysed(f)
     so = [c for c in f.calls() if call_attr(c) == "schedule_once"]
-    chk.require(so, "C13: schedule_once vanished from DelayManager.add")
+    chk.need(so, "PAIR-13", "DelayManager.add schedules the callback (schedule_once)", f)
     for c in so:
         a = c.args[1] if len(c.args) > 1 else kwarg(c, "timeout")
         d = units.dim(a, f, units.env_for(f))
@@ -101,7 +101,7 @@ def check(chk):
     cfg = f.cfg()
     store = [n for n in cfg.nodes_where(lambda n: n.kind == "stmt" and isinstance(n.ast, ast.Assign) and
                                         src(n.ast.targets[0]) == "self.delays[name]")]
-    chk.require(store, "C13: record store vanished from DelayManager.add")
+    chk.need(store, "PAIR-13", "DelayManager.add files the delay under its name", f)
     pops = [n for n in cfg.nodes_where(lambda n: n.kind == "stmt" and isinstance(n.ast, ast.Assign) and
                                        isinstance(n.ast.value, ast.Call) and call_attr(n.ast.value) == "pop")]
     rm = [n for n, c in cfg.calls_named("remove") if src(c.func.value) == "self"]
@@ -143,7 +143,7 @@ def check(chk):
     cfg = f.cfg()
     cbs = [(n, c) for n in cfg.nodes_where(lambda n: n.kind != "branch") for c in n.calls()
            if isinstance(c.func, ast.Name) and c.func.id == "callback"]
-    chk.require(cbs, "C13: callback call vanished from _process_delay_callback")
+    chk.need(cbs, "PAIR-13", "a firing delay calls its callback", f)
     dels = [n for n in cfg.nodes_where(lambda n: n.kind == "stmt" and ((isinstance(n.ast, ast.Delete) and "self.delays[name]" in src(n.ast)) or
                                                                        (isinstance(n.ast, ast.Expr) and "self.delays.pop(name" in src(n.ast))))]
     for n, c in cbs:
@@ -198,7 +198,7 @@ def check(chk):
     cfg = f.cfg()
     reads = [n for n in cfg.nodes_where(lambda n: n.kind == "stmt" and isinstance(n.ast, ast.Assign) and
                                         "self.delays[name]" in src(n.ast.value))]
-    chk.require(reads, "C13: run_now no longer reads the record")
+    chk.need(reads, "FLOW-5", "run_now takes the stored record of the delay", f)
     var = src(reads[0].ast.targets[0])
     idxs = src(reads[0].ast.value)
     rm = [n for n, c in cfg.calls_named("remove") if src(c.func.value) == "self"]
